@@ -285,3 +285,34 @@ Proof.
   destruct p as [|p0 p']; [eauto|]. unfold port_text_ok in Hp. apply andb_prop in Hp. destruct Hp as [Hd Hn]. rewrite Hd.
   destruct (N_of_digits (p0 :: p')) as [n|]; [|discriminate]. cbn [bind]. replace (65535 <? n) with false by lia. eauto.
 Qed.
+
+(* ------------------------------------------------------------------ Accept headers *)
+Lemma dump_options_total h o : exists t, dump_options_header h o = Ok t.
+Proof.
+  unfold dump_options_header. assert (H : exists segs, map_res dump_option o = Ok segs).
+  { induction o as [|[k v] o [segs IH]]; [exists []; reflexivity|]. cbn [map_res]. unfold dump_option at 1.
+    destruct (last_is STAR k); cbn [bind]; rewrite IH; cbn [bind]; eauto. }
+  destruct H as [segs ->]. cbn [bind]. eauto.
+Qed.
+
+Lemma accept_item_total item : exists o, accept_item item = Ok o.
+Proof.
+  unfold accept_item. destruct (parse_options_header_total item) as [[value options] ->]. cbn [bind].
+  assert (Hd : forall (q : option str) opts, exists o,
+            match opts with
+            | [] => Ok (Some (value, q))
+            | _ => do t <- dump_options_header value opts; Ok (Some (t, q))
+            end = Ok o).
+  { intros q opts. destruct opts as [|kv opts']; [eauto|]. destruct (dump_options_total value (kv :: opts')) as [t ->]. cbn [bind]. eauto. }
+  destruct (dict_get s_q options) as [qv|]; [|apply Hd].
+  destruct (q_parse (py_strip qv)) as [q|]; [|eauto]. destruct (q_out_of_range q); [eauto|apply Hd].
+Qed.
+
+Lemma accept_items_total items : exists l, accept_items items = Ok l.
+Proof.
+  induction items as [|it r [l IH]]; [exists []; reflexivity|]. cbn [accept_items].
+  destruct (accept_item_total it) as [o ->]. cbn [bind]. rewrite IH. cbn [bind]. eauto.
+Qed.
+
+Lemma parse_accept_items_total s : exists l, parse_accept_items s = Ok l.
+Proof. unfold parse_accept_items. destruct s; [eauto|apply accept_items_total]. Qed.
